@@ -50,6 +50,8 @@ var (
 	zzHdr       *headers.HeaderInfo
 	zzTrig      int
 	zzResults   [zzK]int
+	zzShort     [zzStreamMax]int // sizes of short reads, should the code use Reader.Read
+	zzReads     int
 )
 
 func zzStubNewReader(rd io.Reader) *bufio.Reader { return new(bufio.Reader) }
@@ -95,6 +97,36 @@ func zzStubReadFull(r io.Reader, buf []byte) (int, error) {
 	}
 	zzPos = zzLen
 	return avail, io.ErrUnexpectedEOF
+}
+
+// zzStubRead: (*bufio.Reader).Read by contract: at least one and at most
+// len(buf) of the bytes that are left (a short read is allowed), io.EOF at the end.
+func zzStubRead(r *bufio.Reader, buf []byte) (int, error) {
+	avail := zzLen - zzPos
+	if len(buf) == 0 {
+		return 0, nil
+	}
+	if avail <= 0 {
+		return 0, io.EOF
+	}
+	n := 1
+	if 0 <= zzReads && zzReads < zzStreamMax {
+		n = zzShort[zzReads]
+	}
+	zzReads++
+	if n > len(buf) {
+		n = len(buf)
+	}
+	if n > avail {
+		n = avail
+	}
+	for i := 0; i < zzStreamMax; i++ {
+		if i < n {
+			buf[i] = zzStream[zzPos+i]
+		}
+	}
+	zzPos += n
+	return n, nil
 }
 
 func zzStubProcess(mp *motion.MotionProcessor, raw []byte) error {
@@ -210,6 +242,11 @@ func ZZ_CONN() {
 		}
 	}
 	zzAssume(!fragClear)
+	zzReads = 0
+	for i := 0; i < zzStreamMax; i++ {
+		zzShort[i] = 1 + zzInt("short", i)
+		zzAssume(1 <= zzShort[i] && zzShort[i] <= zzFrameSize)
+	}
 	zzCalls, zzOrderOK, zzProcN, zzResetN, zzRestarts, zzBadN = 0, true, 0, 0, 0, 0
 	// lay the items and the fragment out as one byte stream
 	zzLen, zzPos = 0, 0
@@ -267,7 +304,7 @@ func ZZ_CONN() {
 		if len(data)-len(hdr) != zzLen {
 			panic("zz: stream layout mismatch")
 		}
-		conn = &zzConn{data: data, seg: 1 + zzInt("seg", 0)%7}
+		conn = &zzConn{data: data, seg: zzShort[0]}
 		motion.ZZHookProcess, motion.ZZHookReset = zzStubProcess, zzStubReset
 		leptondController.ZZHookRestartCamera = zzStubRestartCamera
 	}
@@ -335,6 +372,7 @@ func ZZ_CONN() {
 	}
 	sr, oks := zzFieldVal(p, "snapshotRecorder").(*CPTVFileRecorder)
 	zzAssert(oks && sr != nil && !sr.constantRecorder, "C17: the test-recording sink is a plain file recorder")
+	zzAssert(sr != fileRec && (crf == nil || (crf != fileRec && crf != sr)), "C11/C12/C17: motion, continuous and test recordings go to three distinct file recorders")
 	// ---- CPTV header built from configuration and camera description (C11)
 	h := fileRec.header
 	zzAssert(h.DeviceName == "zzdevice" && h.DeviceID == 7 && h.PreviewSecs == prevS && h.FPS == fps, "C11: header carries device name/id, preview-secs and fps")
